@@ -15,7 +15,8 @@ from harness import core
 from harness import c03 as K
 
 PROP = "C04"
-TECHNIQUE = K.TECHNIQUE
+TECHNIQUE = ("Lean 4 proof (list induction, List.Perm, ring/field_simp) + exact differential correspondence "
+             "with user functions as value tables")
 LEVEL_TEXT = ("Lean 4 theorems, for all networks (value and derivative oracles), boundary functions, weights, border "
               "batches of any size and all specifications: the boundary term is the sum, over the facets that carry a "
               "condition, of w times the mean over exactly that facet's own points of the squared mismatch between f and "
@@ -33,6 +34,7 @@ LEVEL_NOTE = ("Trusted: Lean kernel + {propext, Classical.choice, Quot.sound}; J
               "property (the code multiplies the weight after the component sum).")
 THEOREMS = [
     "Jinns.Boundary.normal_eq_outward",
+    "Jinns.Boundary.outward_eq_holds",
     "Jinns.Boundary.boundary_eq_sum_facets",
     "Jinns.Boundary.facetLoss_eq",
     "Jinns.Boundary.none_facet_contributes_zero",
